@@ -250,7 +250,13 @@ func calculateModRM(mem *ng_operand.MemoryInfo, bitMode cpu.BitMode, regBits byt
 	}
 
 	// --- 16-bit Addressing (Table 2-1) ---
-	if bitMode == cpu.MODE_16BIT {
+	// The table is chosen by the registers the operand is written with, not by the mode: [BX+SI] in 32-bit code is still
+	// 16-bit addressing (the caller adds the 67h prefix).  An operand without registers follows the mode.
+	uses16BitTable := bitMode == cpu.MODE_16BIT
+	if mem.BaseReg != "" || mem.IndexReg != "" {
+		uses16BitTable = !is32BitRegister(mem.BaseReg) && !is32BitRegister(mem.IndexReg)
+	}
+	if uses16BitTable {
 		sibByte = 0 // No SIB in 16-bit mode
 		switch {
 		case mem.BaseReg == "BX" && mem.IndexReg == "SI":
